@@ -169,10 +169,9 @@ def analyse(repo: Repo, tier: str = "quick") -> List[Rec]:
             _classify_return(repo, recs, R, h, hp, expr, line, tparams, ops)
         # ---- operand-kind typestate (C05.R2)
         helpers = {}
-        for name in ("cannot_mm",):
-            r = repo.resolve(h.mi, name)
-            if r is not None and isinstance(r[1], ast.FunctionDef):
-                helpers[name] = r[1]
+        for name, node in h.mi.defs.items():
+            if isinstance(node, ast.FunctionDef) and not node.decorator_list and name not in ("is_scalar", "qfallback") and not name.startswith("register_") and not name.startswith("get_"):
+                helpers[name] = node
         try:
             f, n_asg, n_paths = kinds.analyse(h.fn, h.ops, max_list=3 if tier == "quick" else 4, helpers=helpers)
         except AnalysisError as e:
@@ -698,7 +697,7 @@ def _dispatch_rules(repo: Repo, hs) -> List[Rec]:
             f = U(expr.func)
             args = [U(a) for a in expr.args]
             kws = [(k.arg, U(k.value)) for k in expr.keywords]
-            kw_ok = kws in ([(None, "kwargs or {}")], [(None, "kwargs")])
+            kw_ok = kws in ([(None, "kwargs or {}")], [(None, "kwargs")], [(None, "kwargs if kwargs is not None else {}")]) or (kws == [(None, "{}")] and p.holds("kwargs is None") is True)
             if f == f"get_qtensor_func({funcn})":
                 ok = args == ["*args"] and kw_ok and p.holds(f"get_qtensor_func({funcn}) is None") is False
                 R("C05.R8", "ok" if ok else "bad", qt.mod, expr, qn, "registered function call", f"registered function called with *args/**kwargs under `is not None`: {ok}", "any registered torch function")
@@ -719,7 +718,7 @@ def _dispatch_rules(repo: Repo, hs) -> List[Rec]:
                 recs.append(Rec("C05", "C05.R8", "ok" if ok else "bad", f"{h.mi.rel}:{line}", h.name, "dequantizing function wrapper", f"wrapper for {h.ops} returns qfallback(func, *args, **kwargs): {ok}", "any call of these functions with a quantized argument"))
     # qfallback
     mi, qf = repo.func("qfallback")
-    ps = paths_of(qf)
+    ps = [p_ for p_ in paths_of(qf) if p_.end[0] != "raise"]
     params = positional_params(qf)
     ok = False
     detail = "qfallback body not recognised"
